@@ -182,6 +182,30 @@ def reinitLit2 (H : String → UInt64) (t : T) : Res (List String × List EdgeId
         ({ bits := b, nleft := h.2.1, nright := h.2.2.2, hleft := h.1, hright := h.2.2.1 } : EdgeIdx))
       (updateBitSet (fun x => sorted.idxOf x) sorted.length t.kids) (hashTLit H true (0, 0) t))
 
+/-- `UpdateTipIndex`, statement by statement: the sorted tips are entered one after the other in the
+    name map (`seen`, in order of entry = rank); a name that is already there is the error. -/
+def updateTipIndexLit : List String → List String → Res (List String)
+  | [], seen => .ok seen
+  | x :: r, seen =>
+    if seen.contains x then .err "Cannot create a tip index when several tips have the same name"
+    else updateTipIndexLit r (seen ++ [x])
+
+/-- `ReinitInternalIndexes` on a tree whose tip index (names by rank) is `index`, as left by the last
+    `UpdateTipIndex`: `ClearBitSets` (error when the index is empty), `UpdateBitSet`, `ComputeEdgeHashes`,
+    all statement by statement; the tip ids are the positions in `index`. -/
+def reinitInternalLit (H : String → UInt64) (index : List String) (t : T) : Res (List String × List EdgeIdx) :=
+  if index.length == 0 then .err "No tips in the index, tip name index is not initialized"
+  else .ok (index, List.zipWith (fun (b : List Bool) (h : UInt64 × Nat × UInt64 × Nat) =>
+        ({ bits := b, nleft := h.2.1, nright := h.2.2.2, hleft := h.1, hright := h.2.2.1 } : EdgeIdx))
+      (updateBitSet (fun x => index.idxOf x) index.length t.kids) (hashTLit H true (0, 0) t))
+
+/-- `ReinitIndexes` = `UpdateTipIndex` then `ReinitInternalIndexes`, nothing summarised
+    (what the driver runs; `reinitLit3_eq` shows it is `reinit`). -/
+def reinitLit3 (H : String → UInt64) (t : T) : Res (List String × List EdgeIdx) :=
+  match updateTipIndexLit (sortNames t.tipNames) [] with
+  | .err m => .err m
+  | .ok index => reinitInternalLit H index t
+
 /-- the index record of branch number `i` (position in `Edges()` / `T.splits`) after `ReinitIndexes` -/
 def indexOf (H : String → UInt64) (t : T) (i : Nat) : Option EdgeIdx :=
   match reinit H t with
